@@ -7,7 +7,7 @@ def run(ctx):
     if ctx.thorough:
         ctx.tlc_mc("MC_Pivot", "MC_Pivot.cand.cfg", workers=12, timeout=3000)
         ctx.tlc_mc("MC_Pivot", "MC_Pivot.thorough.cfg", workers=12, timeout=6000)
-    # A: TLC behaviours (simulation on 4x4 patterns) -> schedules forced on the real worker threads
+    # A: TLC behaviours (simulation on 3x3 patterns, every candidate subset) -> schedules forced on the real worker threads
     nsim = 400 if ctx.thorough else 80
     path, objs = ctx.tlc_gen("Gen_Pivot", "Gen_Pivot.cfg", workers=1, extra=["-simulate", "num=%d" % nsim, "-depth", "80", "-seed", str(ctx.seed)])
     trace = ctx.path("trace.ndjson")
@@ -21,7 +21,7 @@ def run(ctx):
     ctx.cov["distinct_nontrivial"] += rec["runs"]
     if r["accepted"]:
         ctx.cov["traces_validated_against_impl"] += rec["runs"]
-    ctx.cov["rule"] = ("MC: all interleavings of Start/Search/Lock on every 3x3 pattern; A: TLC simulation behaviours on 4x4 patterns, the pattern embedded so that its rows "
+    ctx.cov["rule"] = ("MC: all interleavings of Start/Search/Lock on every 3x3 pattern; A: TLC simulation behaviours on 3x3 patterns with every candidate subset, the pattern embedded so that its rows "
                        "reach the parallel phase and the (row, start|lock) order forced through the gate hooks; B: seeded matrices over Z, Q, F5, Z[H] x {Rows, Cols} x "
                        "{One, AnyUnit, Weight} on pools of 1..16 threads, free-running and under a seeded random gate scheduler that creates stale snapshots; every event "
                        "(started/chosen/nocand/retry/commit/result) must be a step of Pivot.tla and DistinctRows/DistinctCols/CondOK/Acyclic hold after each")
